@@ -79,6 +79,12 @@ type c40Case struct {
 	chunk  int
 	script []string
 	build  string // mpu: one multipart upload; app: a put followed by appends (extendable in place)
+	// hold: after the script, a writer transaction (ow/del of this key, other-ow/other-del of a
+	// second multi-part object) is started and HELD at its holdAt-th verification point
+	// (database.VerifPoint: before each pre-commit hook, between the filesystem store's two
+	// renames, before/after tx.Commit, before each after-commit hook) while the download is drained
+	hold   string
+	holdAt int
 }
 
 func c40ErrKind(err error) string {
@@ -159,7 +165,11 @@ func (e *c40Env) run(out *verifx.Out, k int, seed uint64, c *c40Case) {
 	if len(c.script) > 0 {
 		script = strings.Join(c.script, ",")
 	}
-	out.Line("cfg stack=%s ver=%s build=%s sizes=%s range=%s k=%d chunk=%d script=%s", c.stack, c.ver, c.build, strings.Join(sz, ","), rng, c.k, c.chunk, script)
+	holdTok := "~"
+	if c.hold != "" {
+		holdTok = fmt.Sprintf("%s@%d", c.hold, c.holdAt)
+	}
+	out.Line("cfg stack=%s ver=%s build=%s sizes=%s range=%s k=%d chunk=%d script=%s hold=%s", c.stack, c.ver, c.build, strings.Join(sz, ","), rng, c.k, c.chunk, script, holdTok)
 	defer out.End()
 	defer func() {
 		if p := recover(); p != nil {
@@ -167,6 +177,13 @@ func (e *c40Env) run(out *verifx.Out, k int, seed uint64, c *c40Case) {
 		}
 	}()
 
+	// a second multi-part object whose commit window can be held open (created first: its part ids,
+	// hence its backups, sort before the main object's)
+	okey := storage.MustNewObjectKey(fmt.Sprintf("other%d", k))
+	if strings.HasPrefix(c.hold, "other-") {
+		verifx.Must(st.PutObject(ctx, bucket, okey, nil, bytes.NewReader(append([]byte(fmt.Sprintf("{other%d.0}", k)), r.Bytes(45)...)), nil, nil))
+		verifx.Must(st.AppendObject(ctx, bucket, okey, bytes.NewReader(append([]byte(fmt.Sprintf("{other%d.1}", k)), r.Bytes(45)...)), nil, nil))
+	}
 	// the 3-part object: one multipart upload, or a put extended by appends
 	var parts [][]byte
 	var content []byte
@@ -291,6 +308,79 @@ func (e *c40Env) run(out *verifx.Out, k int, seed uint64, c *c40Case) {
 			anyBlocked = true
 		}
 	}
+	// the held writer: runs in its own goroutine and stops at its holdAt-th verification point
+	var release chan struct{}
+	var holdDone chan error
+	if c.hold != "" {
+		type holdKey struct{}
+		release = make(chan struct{})
+		holdDone = make(chan error, 1)
+		reached := make(chan string, 1)
+		n := 0
+		database.SetVerifPointFunc(func(pctx context.Context, name string, index int) error {
+			if pctx.Value(holdKey{}) == nil {
+				return nil // a transaction of the reader side (part observation), not the held writer
+			}
+			if n == c.holdAt {
+				n++
+				reached <- fmt.Sprintf("%s.%d", name, index)
+				<-release
+				return nil
+			}
+			n++
+			return nil
+		})
+		hctx := context.WithValue(ctx, holdKey{}, true)
+		go func() {
+			defer func() {
+				if p := recover(); p != nil {
+					holdDone <- fmt.Errorf("panic: %v", p)
+				}
+			}()
+			var err error
+			switch c.hold {
+			case "ow":
+				_, err = st.PutObject(hctx, bucket, key, nil, bytes.NewReader(append([]byte("HELD:"), r.Bytes(40)...)), nil, nil)
+			case "del":
+				_, err = st.DeleteObject(hctx, bucket, key, nil)
+			case "other-ow":
+				_, err = st.PutObject(hctx, bucket, okey, nil, bytes.NewReader(append([]byte("HELD-OTHER:"), r.Bytes(40)...)), nil, nil)
+			case "other-del":
+				_, err = st.DeleteObject(hctx, bucket, okey, nil)
+			default:
+				err = fmt.Errorf("unknown hold %s", c.hold)
+			}
+			holdDone <- err
+		}()
+		select {
+		case pt := <-reached:
+			out.Line("hold %s at=%d point=%s held=1", c.hold, c.holdAt, pt)
+		case err := <-holdDone:
+			holdDone <- err
+			out.Line("hold %s at=%d point=~ held=0", c.hold, c.holdAt)
+		case <-time.After(20 * time.Second):
+			out.Line("hold %s at=%d point=~ held=timeout", c.hold, c.holdAt)
+		}
+	}
+	finishHold := func() {
+		if c.hold == "" {
+			return
+		}
+		close(release)
+		select {
+		case err := <-holdDone:
+			out.Line("holdres %s", c40ErrKind(err))
+		case <-time.After(60 * time.Second):
+			out.Line("holdres never-finished")
+		}
+		database.SetVerifPointFunc(nil)
+	}
+	holdFinished := false
+	defer func() {
+		if !holdFinished {
+			finishHold()
+		}
+	}()
 	out.Line("parts %s", e.partStates(ids, parts))
 
 	// phase 2: drain
@@ -326,6 +416,8 @@ func (e *c40Env) run(out *verifx.Out, k int, seed uint64, c *c40Case) {
 		}
 	}
 	_ = rd.Close()
+	holdFinished = true
+	finishHold()
 	for _, p := range blocked {
 		select {
 		case <-p.ch:
@@ -402,6 +494,31 @@ func runC40(args []string) {
 						build = "app"
 					}
 					cases = append(cases, &c40Case{stack: stack, ver: ver, sizes: sizes, lo: 0, hi: -1, k: k, chunk: 16, script: sc, build: build})
+				}
+			}
+		}
+	}
+	// a writer transaction held inside its commit window (between the filesystem store's pre-commit
+	// renames and its after-commit cleanup) while the download crosses part boundaries
+	holdStacks := []string{"fs"}
+	if f.Tier == "thorough" {
+		holdStacks = []string{"fs", "sql"}
+	}
+	for _, stack := range holdStacks {
+		for _, hold := range []string{"ow", "del"} {
+			for at := 0; at < 15; at++ {
+				for _, k := range []int{b1 - 1, b1, b2} {
+					cases = append(cases, &c40Case{stack: stack, ver: "off", sizes: sizes, lo: 0, hi: -1, k: k, chunk: 16, build: "app", hold: hold, holdAt: at})
+				}
+			}
+		}
+		// … and of ANOTHER object, after this object's parts were removed: several foreign backups present
+		for _, sc := range [][]string{{"del"}, {"ow"}} {
+			for _, hold := range []string{"other-ow", "other-del"} {
+				for at := 0; at < 13; at++ {
+					for _, k := range []int{1, b1} {
+						cases = append(cases, &c40Case{stack: stack, ver: "off", sizes: sizes, lo: 0, hi: -1, k: k, chunk: 16, build: "app", script: sc, hold: hold, holdAt: at})
+					}
 				}
 			}
 		}
